@@ -10,7 +10,10 @@ use std::sync::atomic::{AtomicBool, Ordering};
 use std::sync::{Mutex, Once};
 use std::time::Instant;
 
-pub const VERIF_DIR: &str = "/verif";
+/// base directory for evidence/, replays/ and KNOWN_FINDINGS.txt: $PGVERIF_HOME (exported by ./check) or /verif
+pub fn verif_dir() -> String {
+    std::env::var("PGVERIF_HOME").ok().filter(|s| !s.is_empty()).unwrap_or_else(|| "/verif".to_string())
+}
 
 #[derive(Clone, Copy, Debug, PartialEq, Eq)]
 pub enum Tier {
@@ -262,7 +265,7 @@ pub struct Known {
 impl Known {
     pub fn load() -> Known {
         let mut k = Known::default();
-        let path = format!("{VERIF_DIR}/KNOWN_FINDINGS.txt");
+        let path = format!("{}/KNOWN_FINDINGS.txt", verif_dir());
         if let Ok(s) = std::fs::read_to_string(path) {
             for line in s.lines() {
                 let line = line.trim();
@@ -545,7 +548,7 @@ impl Report {
             });
             let text = serde_json::to_string_pretty(&body).unwrap();
             let h = fnv64(serde_json::to_string(&json!({"s": v.stage, "c": v.case})).unwrap().as_bytes());
-            let dir = format!("{VERIF_DIR}/replays/{}", self.id);
+            let dir = format!("{}/replays/{}", verif_dir(), self.id);
             let _ = std::fs::create_dir_all(&dir);
             let path = format!("{dir}/{h:016x}.json");
             let _ = std::fs::write(&path, text);
@@ -586,8 +589,8 @@ impl Report {
             "wall_s": (wall * 1000.0).round() / 1000.0,
             "violations": self.violations.len(),
         });
-        let _ = std::fs::create_dir_all(format!("{VERIF_DIR}/evidence"));
-        let path = format!("{VERIF_DIR}/evidence/{}.json", self.id);
+        let _ = std::fs::create_dir_all(format!("{}/evidence", verif_dir()));
+        let path = format!("{}/evidence/{}.json", verif_dir(), self.id);
         if let Err(e) = std::fs::write(&path, serde_json::to_string_pretty(&ev).unwrap()) {
             eprintln!("cannot write evidence {path}: {e}");
             if code == 0 {
